@@ -77,11 +77,11 @@ def Table.pushBack (t : Table) (key : String) (v : Var) : Table :=
   | some i =>
     { t with cols := modifyNth (putCell t.rowCount v) t.cols i }
 
-/-- `CSelectedOutput::EndRow()` -/
+/-- `CSelectedOutput::EndRow()`. Since fix b4accc5a the row is counted even while the table has no column
+(`GetRowCount` still answers 0 then; a column that appears later is padded with `rowCount` empty cells by `PushBack`);
+before it a row ended without columns was dropped. -/
 def Table.endRow (t : Table) : Table :=
-  if t.colCount ≠ 0 then
-    { t with rowCount := t.rowCount + 1, cols := t.cols.map (padTo (t.rowCount + 1)) }
-  else t
+  { t with rowCount := t.rowCount + 1, cols := t.cols.map (padTo (t.rowCount + 1)) }
 
 /-- `CSelectedOutput::Get(nRow, nCol, pVAR)`: result code and the VAR written. -/
 def Table.get (t : Table) (nRow nCol : Int) : Int × Var :=
